@@ -21,6 +21,7 @@ import (
 	"github.com/hydraide/hydraide/app/core/settings/setting"
 	"github.com/hydraide/hydraide/app/name"
 	"github.com/hydraide/hydraide/app/panichandler"
+	"github.com/hydraide/hydraide/app/verifhook"
 )
 
 type Hydra interface {
@@ -394,6 +395,9 @@ func (h *hydra) SummonSwamp(ctx context.Context, islandID uint64, swampName name
 	// immediately
 	result, _ := h.summoningSwamps.LoadOrStore(swampName.Get(), newSwampWaiter())
 	waiter, _ := result.(*SwampWaiter)
+	if verifhook.Enabled {
+		verifhook.Yield("hydra.summon.loaded", swampName.Get(), waiter)
+	}
 
 	// lezárjuk a következő kódrészt, így csak egyetlen rutin futhatja egyszerre egy domain néven belül
 	waiter.cond.L.Lock()
@@ -428,6 +432,9 @@ func (h *hydra) SummonSwamp(ctx context.Context, islandID uint64, swampName name
 
 	var swampObject swamp.Swamp
 
+	if verifhook.Enabled {
+		verifhook.Yield("hydra.summon.slot", swampName.Get(), waiter)
+	}
 	for {
 		select {
 		case <-ctx.Done():
@@ -442,6 +449,9 @@ func (h *hydra) SummonSwamp(ctx context.Context, islandID uint64, swampName name
 
 			// get the info object of the swamp
 			swampObject = h.getSwamp(swampName)
+			if verifhook.Enabled {
+				verifhook.Yield("hydra.summon.got", swampName.Get(), swampObject)
+			}
 
 			// is the swamp is existing in the hydra
 			if swampObject != nil {
@@ -498,10 +508,16 @@ func (h *hydra) SummonSwamp(ctx context.Context, islandID uint64, swampName name
 
 			// The swamp does not exist in memory, so we need to create it.
 			// During creation, other processes trying to access this swamp will still have to wait.
+			if verifhook.Enabled {
+				verifhook.Yield("hydra.summon.create", swampName.Get())
+			}
 			swampObject = h.createNewSwamp(islandID, swampName)
 
 			// Store the swamp in the hydra map, which is a sync.Map.
 			h.swamps.Store(swampName.Get(), swampObject)
+			if verifhook.Enabled {
+				verifhook.Trace("hydra.swamp.new", "name", swampName.Get(), "swamp", swampObject)
+			}
 
 			// start sending events to the subscribers if there are any clients subscribed to the events
 			if h.hasEventSubscriber(swampName) {
@@ -1075,4 +1091,7 @@ func (h *hydra) infoCallbackFunction(si *swamp.Info) {
 // closeEventCallbackFunction removes the swamp from the opened swamps map
 func (h *hydra) closeEventCallbackFunction(swampName name.Name) {
 	h.swamps.Delete(swampName.Get())
+	if verifhook.Enabled {
+		verifhook.Trace("hydra.swamp.deleted", "name", swampName.Get())
+	}
 }
